@@ -1,6 +1,7 @@
 package core
 
 import (
+	"fmt"
 	"go/constant"
 	"go/token"
 	"go/types"
@@ -295,4 +296,13 @@ func (p *Path) Entails(x ssa.Value, op token.Token, y ssa.Value) bool {
 		return false
 	}
 	return !p.satisfiable(neg)
+}
+
+// DumpArith lists the path's difference constraints (debugging aid).
+func (p *Path) DumpArith() []string {
+	var out []string
+	for _, d := range p.dc {
+		out = append(out, fmt.Sprintf("%s - %s <= %d", d.to, d.from, d.w))
+	}
+	return out
 }
